@@ -32,6 +32,17 @@ impl std::error::Error for ScriptErr {}
 enum Answer {
     Stop,
     Error,
+    /// an error whose value is itself a `ParseState` (a consumer forwarding the failure of a nested parse)
+    ErrorState(u8),
+}
+
+fn forwarded_state(k: u8) -> ParseState {
+    match k {
+        0 => ParseState::HeaderIncorrect,
+        1 => ParseState::ConsumerStopRequested,
+        2 => ParseState::Complete,
+        _ => ParseState::OperandExpected(12, 34),
+    }
 }
 
 struct Scripted {
@@ -46,6 +57,7 @@ impl Scripted {
         match self.script {
             Some((at, Answer::Stop)) if at == idx => ParseAction::Stop,
             Some((at, Answer::Error)) if at == idx => ParseAction::Error(Box::new(ScriptErr(idx))),
+            Some((at, Answer::ErrorState(k))) if at == idx => ParseAction::Error(Box::new(forwarded_state(k))),
             _ => ParseAction::Continue,
         }
     }
@@ -196,6 +208,9 @@ fn check_case(c: &Case) -> (Vec<Viol>, BTreeMap<String, u64>, u64) {
     for p in 0..=full.len() {
         scripts.push(Some((p, Answer::Stop)));
         scripts.push(Some((p, Answer::Error)));
+        for k in 0..4 {
+            scripts.push(Some((p, Answer::ErrorState(k))));
+        }
     }
     for script in scripts {
         runs += 1;
@@ -233,11 +248,15 @@ fn check_case(c: &Case) -> (Vec<Viol>, BTreeMap<String, u64>, u64) {
                     other => out.push(viol(key("error-payload"), format!("case {} script {:?}: ConsumerError carries {:?}, not the consumer's own error", c.name, script, other), rep.clone())),
                 }
             }
+            (Some((_, Answer::ErrorState(k))), Err(ParseState::ConsumerError(e))) => match e.downcast_ref::<ParseState>() {
+                Some(st) if state_name(st) == state_name(&forwarded_state(k)) => *oc.entry("forwarded_state_carried".into()).or_insert(0) += 1,
+                other => out.push(viol(key("error-payload"), format!("case {} script {:?}: ConsumerError carries {:?}, not the consumer's own ParseState value", c.name, script, other.map(state_name)), rep.clone())),
+            },
             (None, Ok(())) if c.fault.is_none() => *oc.entry("complete".into()).or_insert(0) += 1,
             (None, Err(e)) if c.fault == Some(state_name(e)) => *oc.entry(format!("parse_error_{}", state_name(e))).or_insert(0) += 1,
             (f, r) => out.push(viol(
                 key("result"),
-                format!("case {} script {:?}: result {:?}, expected {}", c.name, script, r.as_ref().map_err(|e| state_name(e)), match f { Some((_, Answer::Stop)) => "ConsumerStopRequested".to_string(), Some((_, Answer::Error)) => "ConsumerError".to_string(), None => format!("{:?}", c.fault.unwrap_or("Ok")) }),
+                format!("case {} script {:?}: result {:?}, expected {}", c.name, script, r.as_ref().map_err(|e| state_name(e)), match f { Some((_, Answer::Stop)) => "ConsumerStopRequested".to_string(), Some((_, Answer::Error)) | Some((_, Answer::ErrorState(_))) => "ConsumerError".to_string(), None => format!("{:?}", c.fault.unwrap_or("Ok")) }),
                 rep.clone(),
             )),
         }
@@ -289,7 +308,7 @@ pub fn run(tier: Tier) -> Run {
     run.set("exhaustive", json!(true));
     run.set("samples", json!(cs.iter().step_by(cs.len() / 5 + 1).map(|c| json!({"case": c.name, "bytes": hex(&c.bytes), "expected_callbacks": expected_log(c).len()})).collect::<Vec<_>>()));
     run.set("rule", json!("state = (binary, callback position); every state is driven with answers continue / stop / error on the real Parser; the log of callbacks is compared with the protocol prefix, the result with the answer given, the ConsumerError payload with the consumer's own error by identity; the real Loader is run on every binary"));
-    for o in ["stop_honoured", "error_carried", "complete", "loader_module", "loader_no_module", "parse_error_WordCountZero", "parse_error_OpcodeUnknown", "parse_error_OperandExpected", "parse_error_OperandExceeded", "parse_error_OperandError", "parse_error_TypeUnsupported", "parse_error_SpecConstantOpIntegerIncorrect", "parse_error_HeaderIncomplete", "parse_error_HeaderIncorrect", "parse_error_EndiannessUnsupported"] {
+    for o in ["stop_honoured", "error_carried", "forwarded_state_carried", "complete", "loader_module", "loader_no_module", "parse_error_WordCountZero", "parse_error_OpcodeUnknown", "parse_error_OperandExpected", "parse_error_OperandExceeded", "parse_error_OperandError", "parse_error_TypeUnsupported", "parse_error_SpecConstantOpIntegerIncorrect", "parse_error_HeaderIncomplete", "parse_error_HeaderIncorrect", "parse_error_EndiannessUnsupported"] {
         run.require_outcome(o);
     }
     run
